@@ -116,7 +116,7 @@ type histKind struct {
 	set     func(o interface{}, p int)
 	copyObj func(o interface{}) interface{}
 	assign  func(dst, src interface{})
-	use     func(w *mc.W, o interface{}, model int, where string, cas interface{})
+	use     func(w *mc.W, o interface{}, model int, where string, cas map[string]string)
 }
 
 // structural classes of a history, computed on the model side only
@@ -187,6 +187,9 @@ func (s *space) runHistories(c *mc.Ctx, k *histKind, depth, npts int) {
 				case 'U':
 					k.use(w, objs[o.i], model[o.i], fmt.Sprintf("object #%d (model P%d) used at step %d of [%s]", o.i, model[o.i], step+1, desc), cas)
 				}
+			}
+			if !c.Thorough && len(h) > 3 {
+				cas["skip-pippenger"] = "yes" // quick: the 191-term consumer (which reads the same stored point as Point()) only after histories of length <= 3
 			}
 			for i, o := range objs {
 				k.use(w, o, model[i], fmt.Sprintf("object #%d (model P%d) after [%s]", i, model[i], desc), cas)
@@ -285,8 +288,8 @@ func (s *space) histories(c *mc.Ctx) {
 	dE, dR := refgrp.Sum(sumE...), refgrp.Sum(sumR...)
 	_ = dynR
 
-	useE := func(pts []hp) func(w *mc.W, o interface{}, m int, where string, cas interface{}) {
-		return func(w *mc.W, o interface{}, m int, where string, cas interface{}) {
+	useE := func(pts []hp) func(w *mc.W, o interface{}, m int, where string, cas map[string]string) {
+		return func(w *mc.W, o interface{}, m int, where string, cas map[string]string) {
 			x := o.(*curve.ExpandedEdwardsPoint)
 			P := pts[m]
 			el := s.elems[P.e]
@@ -304,9 +307,11 @@ func (s *space) histories(c *mc.Ctx) {
 			checkPt(w, K+"ExpandedMultiscalarMulVartime/straus", func() *curve.EdwardsPoint {
 				return nr().ExpandedMultiscalarMulVartime([]*scalar.Scalar{a}, []*curve.ExpandedEdwardsPoint{x}, []*scalar.Scalar{b}, []*curve.EdwardsPoint{qE.P})
 			}, refgrp.Sum(P.aP, bQ), d("ExpandedMultiscalarMulVartime(1 static, 1 dynamic)"), cas)
-			checkPt(w, K+"ExpandedMultiscalarMulVartime/pippenger", func() *curve.EdwardsPoint {
-				return nr().ExpandedMultiscalarMulVartime([]*scalar.Scalar{a}, []*curve.ExpandedEdwardsPoint{x}, ones, dynE)
-			}, refgrp.Sum(P.aP, dE), d("ExpandedMultiscalarMulVartime(1 static, 190 dynamic)"), cas)
+			if cas["skip-pippenger"] == "" {
+				checkPt(w, K+"ExpandedMultiscalarMulVartime/pippenger", func() *curve.EdwardsPoint {
+					return nr().ExpandedMultiscalarMulVartime([]*scalar.Scalar{a}, []*curve.ExpandedEdwardsPoint{x}, ones, dynE)
+				}, refgrp.Sum(P.aP, dE), d("ExpandedMultiscalarMulVartime(1 static, 190 dynamic)"), cas)
+			}
 			try(w, K+"ExpandedTripleScalarMulBasepointVartime", cas, func() {
 				if !nr().ExpandedTripleScalarMulBasepointVartime(a, x, b, P.libC).IsSmallOrder() {
 					w.Fail(K+"ExpandedTripleScalarMulBasepointVartime", d("ExpandedTripleScalarMulBasepointVartime with aP+bB-C = O: result not in E[8]")(), cas)
@@ -339,7 +344,7 @@ func (s *space) histories(c *mc.Ctx) {
 		assign: func(dst, src interface{}) {
 			*dst.(*curve.ExpandedRistrettoPoint) = *src.(*curve.ExpandedRistrettoPoint)
 		}, //nolint:govet
-		use: func(w *mc.W, o interface{}, m int, where string, cas interface{}) {
+		use: func(w *mc.W, o interface{}, m int, where string, cas map[string]string) {
 			x := o.(*curve.ExpandedRistrettoPoint)
 			P := rPts[m]
 			el := s.elems[P.e]
@@ -354,9 +359,11 @@ func (s *space) histories(c *mc.Ctx) {
 			checkR(w, K+"ExpandedMultiscalarMulVartime/straus", func() *curve.RistrettoPoint {
 				return nrr().ExpandedMultiscalarMulVartime([]*scalar.Scalar{a}, []*curve.ExpandedRistrettoPoint{x}, nil, nil)
 			}, P.aP, d("ristretto ExpandedMultiscalarMulVartime(1 static)"), cas)
-			checkR(w, K+"ExpandedMultiscalarMulVartime/pippenger", func() *curve.RistrettoPoint {
-				return nrr().ExpandedMultiscalarMulVartime([]*scalar.Scalar{a}, []*curve.ExpandedRistrettoPoint{x}, ones, dynRR)
-			}, refgrp.Sum(P.aP, dR), d("ristretto ExpandedMultiscalarMulVartime(1 static, 190 dynamic)"), cas)
+			if cas["skip-pippenger"] == "" {
+				checkR(w, K+"ExpandedMultiscalarMulVartime/pippenger", func() *curve.RistrettoPoint {
+					return nrr().ExpandedMultiscalarMulVartime([]*scalar.Scalar{a}, []*curve.ExpandedRistrettoPoint{x}, ones, dynRR)
+				}, refgrp.Sum(P.aP, dR), d("ristretto ExpandedMultiscalarMulVartime(1 static, 190 dynamic)"), cas)
+			}
 			try(w, K+"ExpandedTripleScalarMulBasepointVartime", cas, func() {
 				if !nrr().ExpandedTripleScalarMulBasepointVartime(a, x, b, rp(P.libC)).IsIdentity() {
 					w.Fail(K+"ExpandedTripleScalarMulBasepointVartime", d("ristretto ExpandedTripleScalarMulBasepointVartime with aP+bB-C = O: result is not the identity")(), cas)
@@ -385,7 +392,7 @@ func (s *space) histories(c *mc.Ctx) {
 			return &cpy
 		},
 		assign: func(dst, src interface{}) { *dst.(*curve.EdwardsBasepointTable) = *src.(*curve.EdwardsBasepointTable) },
-		use: func(w *mc.W, o interface{}, m int, where string, cas interface{}) {
+		use: func(w *mc.W, o interface{}, m int, where string, cas map[string]string) {
 			useTable(w, "EdwardsBasepointTable/history/", o.(*curve.EdwardsBasepointTable), ePts[m], where, cas)
 		},
 	}
@@ -399,7 +406,7 @@ func (s *space) histories(c *mc.Ctx) {
 		assign: func(dst, src interface{}) {
 			*dst.(*curve.RistrettoBasepointTable) = *src.(*curve.RistrettoBasepointTable)
 		},
-		use: func(w *mc.W, o interface{}, m int, where string, cas interface{}) {
+		use: func(w *mc.W, o interface{}, m int, where string, cas map[string]string) {
 			tbl := o.(*curve.RistrettoBasepointTable)
 			P := rPts[m]
 			d := func(op string) func() string {
